@@ -5,6 +5,7 @@ package main
 // concrete keys, recording one event per call plus a summary; and the bit-flip sweep.
 
 import (
+	"encoding/base64"
 	"fmt"
 
 	"github.com/brocaar/lorawan"
@@ -155,9 +156,12 @@ func (c *ctx) linkCase(cs M) {
 			ev["err"] = res
 			ev["bytes"] = bs(wire)
 			c.emit(ev)
+			if res != "" {
+				wire = nil // nothing was put on the air (the library returns an empty, non-nil slice with its error)
+			}
 		}
 	}
-	if wire == nil {
+	if len(wire) < 12 {
 		end["verdict"] = "err"
 		end["final"] = phyToVal(phy)
 		c.emit(end)
@@ -198,7 +202,16 @@ func (c *ctx) linkCase(cs M) {
 		switch op {
 		case "Unmarshal":
 			ev := M{"ev": "unwire", "bytes": bs(wire)}
-			res, _ := observeFast(func() error { return rp.UnmarshalBinary(append([]byte{}, wire...)) })
+			textRoute := c.rnd.Intn(3) == 0 // the frame travels as base64 text (the form gateways and APIs hand frames over in)
+			if textRoute {
+				ev["route"] = "text"
+			}
+			res, _ := observeFast(func() error {
+				if textRoute {
+					return rp.UnmarshalText([]byte(base64.StdEncoding.EncodeToString(wire)))
+				}
+				return rp.UnmarshalBinary(append([]byte{}, wire...))
+			})
 			ev["err"] = res
 			if res == "" {
 				ev["frame"] = phyToVal(rp)
